@@ -104,6 +104,10 @@ class World:
         if name == "adj":
             # adjacency builders used as mutators of EXISTING vertices: k bit0 -> matrix form
             return ("adj", i % nv, j % nv, (k >> 1) % 6, k & 1)
+        if name == "newu2":
+            if nv >= 6:
+                return None
+            return ("newu2", list(dict.fromkeys(x % nv for x in (i, j, k)))[: 1 + k % 3])
         if name in ("flag", "query", "repickle"):
             return (name, k)
         raise ValueError(f"unknown op {name}")
@@ -205,6 +209,13 @@ class World:
             nvx = Vertex(universes=arg, attributes={"i": len(self.vs)})
             self.vs.append(nvx)
             return nvx
+        if name == "newu2":
+            shared = [self.vs[x] for x in r[1]]          # ONE duplicate-free list object given to two constructors
+            for _ in range(2):
+                nu = Universe(vertices=shared)
+                self.vs.append(nu)
+                self.uidx.append(len(self.vs) - 1)
+            return None
         if name == "newu":
             arg = [self.vs[x] for x in r[1]]
             arg = (arg, tuple(arg), (x for x in arg))[r[2] if len(r) > 2 else 0]
